@@ -61,11 +61,19 @@ def r3_sorted_rows(run, w):
   if len(attrs) != 1:
     raise AnalysisError("PositionColumn.__init__: sorted row list not found")
   SR = attrs[0].targets[0].attr
-  key = [k.value for k in attrs[0].value.keywords if k.arg == "key"]
-  ok = len(key) == 1 and isinstance(key[0], ast.Lambda) and \
+  def key_reads_storage(fn_, call):
+    """The key= callable of a SortedListWithKey(...) orders a row by self.raw_get(<row>)."""
+    key = [k.value for k in call.keywords if k.arg == "key"]
+    if len(key) != 1:
+      return False
+    got = H.callable_of(w, fn_, key[0], H.Flow(fn_))
+    if got is None:
+      raise AnalysisError("%s: cannot resolve the sort key %s" % (fn_.qualname, short(key[0])))
+    params, vals = got
+    return bool(params) and all(
       any(isinstance(c, ast.Call) and text(c.func) == "self.raw_get" and
-          [text(a) for a in c.args] == [key[0].args.args[0].arg]
-          for c in ast.walk(key[0].body))
+          [text(a) for a in c.args] == [params[0]] for c in ast.walk(v)) for v in vals)
+  ok = key_reads_storage(init, attrs[0].value)
   run.ob(R3, init.qualname, "self.%s = SortedListWithKey(key=<stored value of the row>)" % SR,
          "rows are ordered by the position currently stored for them", ok, fi=init.fi)
   # set
